@@ -126,6 +126,10 @@ def _gen_cases(tier, seed):
                 for k in kills:
                     yield dict(i=i, kind="crash", fmt=fmt, cell=cell, time=fmt in ("h5", "nc", "xtc"), parts=parts, pattern=pname, kill_at=k)
                     i += 1
+                    if fmt == "h5":
+                        # live output appended to an existing file (mode 'a'): frames written by an earlier, closed session
+                        yield dict(i=i, kind="crash", fmt=fmt, cell=cell, time=True, parts=parts, pattern=pname + "+append", kill_at=k, pre=[2, 1])
+                        i += 1
 
 
 # ------------------------------------------------------------------------------------------------ writer adapters
@@ -394,9 +398,14 @@ from vlib import overlay; overlay.install()
 import numpy as np
 from vlib.props import c19
 spec = json.loads(sys.argv[1])
-t = c19.traj_for(sum(spec['parts']), spec['cell'])
-fh = c19.open_w(spec['path'], spec['fmt'], t.topology)
+pre = spec.get('pre') or []
+t = c19.traj_for(sum(pre) + sum(spec['parts']), spec['cell'])
 pos = 0
+if pre:
+    pos = c19.write_parts(spec['path'], spec['fmt'], t, pre, spec['cell'], spec['time'])
+    fh = c19.open_w(spec['path'], spec['fmt'], t.topology, 'a')
+else:
+    fh = c19.open_w(spec['path'], spec['fmt'], t.topology)
 for k, p in enumerate(spec['parts'], 1):
     c19.do_write(fh, spec['fmt'], t[pos:pos+p], spec['cell'], spec['time'], model0=pos)
     pos += p
@@ -416,7 +425,8 @@ sys.stdout.write('CLOSED\n'); sys.stdout.flush()
 def _crash(case, ctx, d):
     import json
     fmt, cell, time, parts, kill_at = case["fmt"], case["cell"], case["time"], case["parts"], case["kill_at"]
-    n = sum(parts)
+    pre = case.get("pre") or []
+    n = sum(parts) + sum(pre)
     t = traj_for(n, cell)
     one = os.path.join(d, f"one.{fmt}")
     write_parts(one, fmt, t, [n], cell, time)
@@ -424,7 +434,8 @@ def _crash(case, ctx, d):
     path = os.path.join(d, f"live.{fmt}")
     env = dict(os.environ)
     env["VERIF_ROOT"] = os.path.dirname(os.path.dirname(os.path.dirname(os.path.abspath(__file__))))
-    spec = dict(fmt=fmt, cell=cell, time=time, parts=parts, path=path)
+    spec = dict(fmt=fmt, cell=cell, time=time, parts=parts, path=path, pre=pre)
+    ctx.observe("crash_open_mode", f"{fmt}:{'a' if pre else 'w'}")
     child = subprocess.Popen([sys.executable, "-u", "-c", CHILD, json.dumps(spec)], stdin=subprocess.PIPE, stdout=subprocess.PIPE,
                              stderr=subprocess.PIPE, text=True, env=env)
     snaps = []
@@ -465,14 +476,14 @@ def _crash(case, ctx, d):
         try:
             got = load_back(fp, fmt, t.topology)
         except Exception as e:
-            ctx.violation("crash.frames-survive", f"{fmt}:{label}:file-unloadable[cell={cell}]",
+            ctx.violation("crash.frames-survive", f"{fmt}{'(append)' if pre else ''}:{label}:file-unloadable[cell={cell}]",
                           f"{fmt}: file {label} {point} ({pos} frames written, pattern {parts}) does not load: {e!r}")
             return
         exp = ref[:pos]
         diff = same(got, exp, fmt, cell, time, ignore_default_time=True)
         if diff:
-            ctx.violation("crash.frames-survive", f"{fmt}:{label}:frames-lost-or-altered[cell={cell}]",
-                          f"{fmt}: file {label} {point} loads with {got.n_frames} frames, {pos} were written and flushed ({diff})")
+            ctx.violation("crash.frames-survive", f"{fmt}{'(append)' if pre else ''}:{label}:frames-lost-or-altered[cell={cell}]",
+                          f"{fmt}: file {label} {point} (mode {'a' if pre else 'w'}) loads with {got.n_frames} frames, {pos} were written and flushed ({diff})")
         else:
             ctx.ok("crash.frames-survive")
             ctx.observe("crash_points_judged", f"{fmt}:{label}:write#{k}")
